@@ -24,6 +24,7 @@ import (
 	"compress/gzip"
 	"errors"
 	"io"
+	"sync"
 
 	"github.com/rqlite/rqlite/v10/command/proto"
 	pb "google.golang.org/protobuf/proto"
@@ -76,29 +77,35 @@ var verifSQL []string
 
 func verifBuildRequest(n, maxSQL int) *proto.Request {
 	verifSQL = nil
+	return verifBuildRequestP("", n, maxSQL)
+}
+
+// verifBuildRequestP: the nondet names of the request carry prefix pre (two requests on one path).
+func verifBuildRequestP(pre string, n, maxSQL int) *proto.Request {
+	salt := 1000 * len(pre)
 	req := &proto.Request{
-		Transaction:     verifBool("transaction"),
-		DbTimeout:       verifI64("dbTimeout"),
-		RollbackOnError: verifBool("rollbackOnError"),
-		QualifyColumns:  verifBool("qualifyColumns"),
+		Transaction:     verifBool(pre+"transaction"),
+		DbTimeout:       verifI64(pre+"dbTimeout"),
+		RollbackOnError: verifBool(pre+"rollbackOnError"),
+		QualifyColumns:  verifBool(pre+"qualifyColumns"),
 	}
 	for i := 0; i < n; i++ {
-		sql := verifText(verifString(verifName("sql", i), maxSQL), i)
+		sql := verifText(verifString(verifName(pre+"sql", i), maxSQL), salt+i)
 		verifSQL = append(verifSQL, sql)
 		st := &proto.Statement{
 			Sql:        sql,
-			ForceQuery: verifBool(verifName("forceQuery", i)),
-			ForceStall: verifBool(verifName("forceStall", i)),
-			SqlExplain: verifBool(verifName("sqlExplain", i)),
+			ForceQuery: verifBool(verifName(pre+"forceQuery", i)),
+			ForceStall: verifBool(verifName(pre+"forceStall", i)),
+			SqlExplain: verifBool(verifName(pre+"sqlExplain", i)),
 		}
 		if i == 0 {
 			// one parameter of every kind, values symbolic (the float stays concrete)
 			st.Parameters = []*proto.Parameter{
-				{Value: &proto.Parameter_I{I: verifI64("paramI")}, Name: verifText(verifString("paramName", 4), 100)},
+				{Value: &proto.Parameter_I{I: verifI64(pre+"paramI")}, Name: verifText(verifString(pre+"paramName", 4), salt+100)},
 				{Value: &proto.Parameter_D{D: -2.5}},
-				{Value: &proto.Parameter_B{B: verifBool("paramB")}},
-				{Value: &proto.Parameter_Y{Y: verifBytes("paramY", 2)}, Name: "blob"},
-				{Value: &proto.Parameter_S{S: verifText(verifString("paramS", 4), 101)}},
+				{Value: &proto.Parameter_B{B: verifBool(pre+"paramB")}},
+				{Value: &proto.Parameter_Y{Y: verifBytes(pre+"paramY", 2)}, Name: "blob"},
+				{Value: &proto.Parameter_S{S: verifText(verifString(pre+"paramS", 4), salt+101)}},
 				{Name: "novalue"},
 			}
 		}
@@ -108,26 +115,30 @@ func verifBuildRequest(n, maxSQL int) *proto.Request {
 }
 
 func verifBuildMessage(kind int, req *proto.Request) Requester {
+	return verifBuildMessageP("", kind, req)
+}
+
+func verifBuildMessageP(pre string, kind int, req *proto.Request) Requester {
 	switch kind {
 	case verifKindExecute:
-		return &proto.ExecuteRequest{Request: req, Timings: verifBool("timings")}
+		return &proto.ExecuteRequest{Request: req, Timings: verifBool(pre+"timings")}
 	case verifKindQuery:
 		return &proto.QueryRequest{
 			Request:             req,
-			Timings:             verifBool("timings"),
-			Level:               proto.ConsistencyLevel(int32(verifInt("level", 0, 4))),
-			Freshness:           verifI64("freshness"),
-			FreshnessStrict:     verifBool("freshnessStrict"),
-			LinearizableTimeout: verifI64("linearizableTimeout"),
+			Timings:             verifBool(pre+"timings"),
+			Level:               proto.ConsistencyLevel(int32(verifInt(pre+"level", 0, 4))),
+			Freshness:           verifI64(pre+"freshness"),
+			FreshnessStrict:     verifBool(pre+"freshnessStrict"),
+			LinearizableTimeout: verifI64(pre+"linearizableTimeout"),
 		}
 	}
 	return &proto.ExecuteQueryRequest{
 		Request:             req,
-		Timings:             verifBool("timings"),
-		Level:               proto.ConsistencyLevel(int32(verifInt("level", 0, 4))),
-		Freshness:           verifI64("freshness"),
-		FreshnessStrict:     verifBool("freshnessStrict"),
-		LinearizableTimeout: verifI64("linearizableTimeout"),
+		Timings:             verifBool(pre+"timings"),
+		Level:               proto.ConsistencyLevel(int32(verifInt(pre+"level", 0, 4))),
+		Freshness:           verifI64(pre+"freshness"),
+		FreshnessStrict:     verifBool(pre+"freshnessStrict"),
+		LinearizableTimeout: verifI64(pre+"linearizableTimeout"),
 	}
 }
 
@@ -758,6 +769,113 @@ func VerifC29Decode() {
 	}
 }
 
+// ---------------------------------------------------------------------------
+// an encoding stays valid while later encodings are produced
+
+// verifKept is one encoding whose bytes a caller still holds (exactly the slice it was given).
+type verifKept struct {
+	orig       pb.Message
+	t          proto.Command_Type
+	payload    []byte
+	compressed bool
+}
+
+// verifEncodeRequest: a request of the given kind through marshaler m, compressed (the batch
+// threshold is reached; kept because forced, or because the gzip form is smaller).
+func verifEncodeRequest(pre string, m *RequestMarshaler, kind int) *verifKept {
+	req := verifBuildRequestP(pre, 1, 8)
+	msg := verifBuildMessageP(pre, kind, req)
+	if !m.ForceCompression && !verifSymbolic() {
+		verifAssume(verifTune(msg, req, -(1 << 30), -1)) // natively: content that really compresses
+	}
+	k := &verifKept{orig: verifClone(msg), t: verifCommandType(kind)}
+	b, compressed, err := m.Marshal(msg)
+	verifAssert("C29-request-marshals", err == nil)
+	verifAssume(compressed)
+	k.payload, k.compressed = b, compressed
+	return k
+}
+
+func verifEncodeLoad(pre string) *verifKept {
+	lr := &proto.LoadRequest{Data: verifBytes(pre+"data", 2)}
+	k := &verifKept{orig: verifClone(lr), t: proto.Command_COMMAND_TYPE_LOAD}
+	b, err := MarshalLoadRequest(lr)
+	verifAssert("C29-load-marshals", err == nil)
+	k.payload = b
+	return k
+}
+
+// verifStillDecodes: the held bytes, wrapped and shipped now, decode to the request they were
+// made from. One verdict (natively a clobbered gzip stream usually fails to decode at all, in the
+// model it decodes to the other request).
+func verifStillDecodes(k *verifKept) bool {
+	wire, err := Marshal(&proto.Command{Type: k.t, SubCommand: k.payload, Compressed: k.compressed})
+	if err != nil {
+		return false
+	}
+	got := &proto.Command{}
+	if Unmarshal(verifSent(wire), got) != nil || got.Type != k.t {
+		return false
+	}
+	if k.t == proto.Command_COMMAND_TYPE_LOAD {
+		var dec proto.LoadRequest
+		if UnmarshalLoadRequest(got.SubCommand, &dec) != nil {
+			return false
+		}
+		return verifIdentical(k.orig, &dec)
+	}
+	dec := verifFreshFor(got.Type)
+	if UnmarshalSubCommand(got, dec) != nil {
+		return false
+	}
+	return verifIdentical(k.orig, dec)
+}
+
+// VerifC29Kept: encoding A is produced and its bytes are kept; then encoding B is produced (same
+// marshaler, a second marshaler, or a load request; both orders); A's bytes must still decode to
+// A, and B's to B. A third encoding follows in the thorough tier.
+func VerifC29Kept() {
+	verifPanicsAreViolations()
+	m1 := &RequestMarshaler{BatchThreshold: 0, SizeThreshold: 1 << 30, ForceCompression: verifChoice("force1", 2) == 1}
+	m2 := &RequestMarshaler{BatchThreshold: 1, SizeThreshold: 1 << 30, ForceCompression: verifChoice("force2", 2) == 1}
+	kindA := verifChoice("kindA", verifKinds)
+	kindB := (kindA + verifChoice("kindBOffset", 2)) % verifKinds
+	var a, b *verifKept
+	switch verifChoice("scenario", 5) {
+	case 0:
+		a = verifEncodeRequest("a.", m1, kindA)
+		b = verifEncodeRequest("b.", m1, kindB)
+		verifReach("same-marshaler")
+	case 1:
+		a = verifEncodeRequest("a.", m1, kindA)
+		b = verifEncodeRequest("b.", m2, kindB)
+		verifReach("two-marshalers")
+	case 2:
+		a = verifEncodeRequest("a.", m1, kindA)
+		b = verifEncodeLoad("b.")
+		verifReach("request-then-load")
+	case 3:
+		a = verifEncodeLoad("a.")
+		b = verifEncodeRequest("b.", m1, kindB)
+		verifReach("load-then-request")
+	case 4:
+		a = verifEncodeLoad("a.")
+		b = verifEncodeLoad("b.")
+		verifReach("two-loads")
+	}
+	var c *verifKept
+	if verifTier() == 1 {
+		c = verifEncodeRequest("c.", m2, kindA)
+	}
+	verifAssert("C29-kept-encoding-still-decodes-to-its-request", verifStillDecodes(a))
+	verifAssert("C29-later-encoding-decodes-to-its-request", verifStillDecodes(b))
+	if c != nil {
+		verifAssert("C29-later-encoding-decodes-to-its-request", verifStillDecodes(c))
+	}
+	// and once more: decoding must not have disturbed anything either
+	verifAssert("C29-kept-encoding-still-decodes-to-its-request", verifStillDecodes(a))
+}
+
 // VerifC29Twin: same set-up as VerifC29Request; the final claim is false (compression does happen).
 func VerifC29Twin() {
 	maxStmts, _ := verifBounds()
@@ -928,6 +1046,17 @@ func verifGzNewWriterLevel(w io.Writer, level int) (*gzip.Writer, error) {
 	return zw, nil
 }
 
+// Reset(w): the writer starts a new stream into w (a Writer that was never created is adopted).
+func verifGzWriterReset(z *gzip.Writer, w io.Writer) {
+	for _, st := range verifGzWs {
+		if st.zw == z {
+			st.dst, st.pending, st.header, st.closed = w, nil, false, false
+			return
+		}
+	}
+	verifGzWs = append(verifGzWs, &verifGzW{zw: z, dst: w})
+}
+
 func verifGzWriterWrite(z *gzip.Writer, p []byte) (int, error) {
 	w := verifGzWOf(z)
 	if w.closed {
@@ -1022,3 +1151,27 @@ func verifGzReaderRead(z *gzip.Reader, p []byte) (int, error) {
 }
 
 func verifGzReaderClose(z *gzip.Reader) error { return nil }
+
+// sync.Pool: last-in-first-out reuse, what one goroutine observes from the real pool between
+// garbage collections (the engine's own intrinsic never reuses, which would hide aliasing).
+var verifPools = map[*sync.Pool][]any{}
+
+func verifPoolGet(p *sync.Pool) any {
+	l := verifPools[p]
+	if n := len(l); n > 0 {
+		x := l[n-1]
+		verifPools[p] = l[:n-1]
+		return x
+	}
+	if p.New != nil {
+		return p.New()
+	}
+	return nil
+}
+
+func verifPoolPut(p *sync.Pool, x any) {
+	if x == nil {
+		return
+	}
+	verifPools[p] = append(verifPools[p], x)
+}
